@@ -1,4 +1,9 @@
-//go:build verif
+//go:build verif && verif_c13wb
+
+// White-box group of property C13 (build tags verif && verif_c13wb): these inspectors read private fields
+// (internalError.typ / nodePath / streamWrapperPath); only the C13 harness asks for the sub-tag, and when the
+// file no longer compiles against a tree (a rename it does not follow) the C13 check is built without the
+// sub-tag and runs its black-box tie only.
 
 package compose
 
